@@ -97,7 +97,8 @@ def verify_function(world, reg, c, prop, timeout_ms=20000, mutate=None):
         path.witness_terms[wname] = it.spec_val(wexpr, env)
       except (Unsupported, PyRaise):
         pass
-    old = it.snapshot(env)
+    # pre-state: parameters and the contract's ghost / closure variables
+    old = it.snapshot({**{g: v for g, v in it.ghost.items() if g in c.ghost}, **env})
     it.entry_old = old
     it.ghost_at_entry = dict(it.ghost)
     outcome, val = None, None
